@@ -541,6 +541,8 @@ def run(ctx):
         scripts = [("\n".join(rec.get("script", [])) + "\n", "replay")]
     else:
         n = 1200 if ctx.tier == "quick" else 50000
+        if os.environ.get("VERIF_C16_N"):        # private runs (mutant triage): fewer generated scripts
+            n = int(os.environ["VERIF_C16_N"])
         for i in range(n):
             scripts.append((gen_script(ctx.rng, ctx.rng.choice([6, 12, 25, 45]), allow_scaled=(i % 3 != 0)), None))
 
@@ -577,8 +579,11 @@ def run(ctx):
     # after the first chunk instead of after thousands of (timed-out) runs
     results = []
     nbad = 0
-    for k in range(0, len(scripts), 56):
-        part = common.pmap(one, scripts[k:k + 56])
+    bounds = [0, min(70, len(scripts))] + list(range(70 + 400, len(scripts), 400)) + [len(scripts)]
+    for a, b in zip(bounds, bounds[1:]):
+        if b <= a:
+            continue
+        part = common.pmap(one, scripts[a:b])
         results += part
         nbad += sum(1 for (_i, _m, fl) in part for f in fl if f["kind"] in ("crash", "oracle"))
         if nbad >= 8:
